@@ -38,7 +38,8 @@ TCase ==
 TRead ==
   /\ E.ev = "r"
   /\ CASE cs.kind = "chunked" ->
-            /\ Step(ChunkedReadFails(cs.lay, s, E) \cup EnvelopeFails(E))
+            /\ Step(ChunkedReadFails(cs.lay, s, E) \cup EnvelopeFails(E)
+                    \cup (IF "boundary" \in DOMAIN E THEN BoundaryFails(cs.lay, s, E) ELSE {}))
             /\ s' = ChunkedReadUpd(s, E)
        [] cs.kind = "length" ->
             /\ Step(LengthReadFails(s, E) \cup EnvelopeFails(E))
